@@ -7,11 +7,14 @@ HARNESS = os.path.join(ROOT, 'harness')
 DRIVER = os.path.join(LEAN, '.lake', 'build', 'bin', 'driver')
 HBIN = os.path.join(HARNESS, 'bin')
 BN254 = 21888242871839275222246405745257275088548364400416034343698204186575808495617
+# the tree under test.  Always /repo for the registered commands; background sweeps of a committed
+# snapshot may point VERIF_REPO at a snapshot of /repo so that they do not see local experiments.
+REPO = os.environ.get('VERIF_REPO', '/repo')
 ALLOWED_AXIOMS = {'propext', 'Classical.choice', 'Quot.sound'}
 FORBIDDEN = re.compile(r'\bsorry\b|\badmit\b|^\s*axiom\s|native_decide|bv_decide|implemented_by|\bunsafe\s|maxHeartbeats\s+0')
 
 GOENV = dict(os.environ, GOFLAGS='-mod=mod', GOPROXY='off', GOSUMDB='off', GOTOOLCHAIN='local',
-             CARGO_NET_OFFLINE='true')
+             CARGO_NET_OFFLINE='true', VERIF_REPO=REPO)
 
 
 class Violation(Exception):
@@ -76,7 +79,15 @@ _built = {}
 
 def go_build(cmds):
     """(Re)build harness commands against /repo's current working tree."""
-    shutil.copyfile('/repo/go.sum', os.path.join(HARNESS, 'go.sum'))
+    shutil.copyfile(os.path.join(REPO, 'go.sum'), os.path.join(HARNESS, 'go.sum'))
+    if not _built.get('replace'):
+        # the harness module builds against the tree under test through a `replace` directive
+        gm = open(os.path.join(HARNESS, 'go.mod')).read()
+        want = f'replace worldcoin/gnark-mbu => {REPO}'
+        if want + '\n' not in gm and not gm.rstrip().endswith(want):
+            gm = re.sub(r'replace worldcoin/gnark-mbu => \S+', want, gm)
+            open(os.path.join(HARNESS, 'go.mod'), 'w').write(gm)
+        _built['replace'] = True
     os.makedirs(HBIN, exist_ok=True)
     for c in cmds:
         if _built.get(('go', c)):
@@ -414,7 +425,7 @@ def build_cli(ctx):
     """Build the real gnark-mbu binary from /repo's current tree into the scratch dir."""
     out = os.path.join(ctx.scratchdir(), 'gnark-mbu')
     if not os.path.exists(out):
-        p = run(['go', 'build', '-o', out, '.'], cwd='/repo')
+        p = run(['go', 'build', '-o', out, '.'], cwd=REPO)
         if p.returncode != 0:
             raise TieBroken('cli-build', (p.stderr or p.stdout)[-2000:])
     return out
